@@ -250,6 +250,10 @@ class Analyzer:
         for c in list(seen_ext) + sorted(self.vartime):
             def extsum(ex_, path, a, c=c):
                 sec = [x for x in a if not isinstance(x, (int, bool, str, X.Ptr, X.Closure)) and x is not None]
+                if c.startswith("filippo.io/edwards25519") or c.startswith("(*filippo.io/edwards25519") and c not in self.vartime:
+                    # a function of the library itself whose body the front end did not deliver: an engine limitation
+                    # (undecided), not a call that leaves the analysed code
+                    raise X.ExecError("no SSA body for the library function %s" % c)
                 path.leaks.append(("extcall", ex_.site(path), c, len(path.pc)))
                 path.dstate.setdefault("extcalls", []).append(c)
                 raise X.ExecError("call to %s (no body, not modelled)" % c)
@@ -469,6 +473,10 @@ def run(chk):
     # replaced by a "fresh secret outputs" summary: they are executed inline in their callers
     for n in ct_funcs:
         if any(has_ptr_inside(prog.T(rt)) for rt in prog.fn(n)["results"]) and n not in API:
+            an.inline.add(n)
+        # helpers taking function values / interfaces (method expressions passed to a generic helper, callbacks) have no
+        # meaningful stand-alone analysis: executed inline in their callers, where the function value is known
+        if n not in API and any(prog.T(p_["type"]).u.k in ("func", "iface", "signature") for p_ in prog.fn(n)["params"]):
             an.inline.add(n)
     order, seen = [], set()
 
